@@ -15,9 +15,10 @@ import json, os, shutil, subprocess, sys, time
 
 VERIF = os.path.dirname(os.path.dirname(os.path.abspath(__file__)))
 
+ENV = dict(os.environ)
 def sh(cmd, cwd=None, timeout=1800):
     try:
-        r = subprocess.run(cmd, cwd=cwd, shell=isinstance(cmd, str), stdout=subprocess.PIPE, stderr=subprocess.STDOUT, text=True, timeout=timeout)
+        r = subprocess.run(cmd, cwd=cwd, shell=isinstance(cmd, str), stdout=subprocess.PIPE, stderr=subprocess.STDOUT, text=True, timeout=timeout, env=ENV)
         return r.returncode, r.stdout
     except subprocess.TimeoutExpired as e:
         return 124, (e.stdout or "") + "\nTIMEOUT"
@@ -28,6 +29,7 @@ def main():
     prop, src, name = sys.argv[1:4]
     out = os.path.join(VERIF, "seeded", name)
     wt = "/tmp/sv-" + name
+    for k in ("WT", "SRC", "TREE", "LIBLCB", "LIBLCB_TREE", "REPO"): ENV[k] = wt   # some demo build scripts take the tree from the environment
     demo = "/tmp/svd-" + name
     meta = {"id": name, "property": prop, "source": "independent sub-agent given only the property text and a scratch worktree",
             "verified_at": time.strftime("%Y-%m-%dT%H:%M:%SZ", time.gmtime()), "steps": {}}
